@@ -47,7 +47,7 @@ def run(ctx, tier, seed, shard, nshards):
 
         for case in c04.multi_base_matrix():
             D.run_one(ctx, case, JUDGE, exclude=exclude, nontrivial=nontrivial)
-        ctx.count("multi_base_matrix_cells", 7 * 27)
+        ctx.count("multi_base_matrix_cells", 7 * 64)
 
 
 def replay(ctx, case):
